@@ -444,6 +444,8 @@ def apply_xml_struct_fault(data, f):
         elif k == "xsi_type_unbound":
             el.set("{%s}type" % XSI, ["zzz:dog", "zzz:", ":dog", "a:b:c"][f["val"] % 4])
         elif k == "xsi_nil_true":
+            if f["idx2"] % 3 == 0:
+                el = root  # the document element itself, every third time
             el.set("{%s}nil" % XSI, ["true", "1", "TRUE", "yes"][f["val"] % 4])
         elif k == "xsi_nil_false":
             el.set("{%s}nil" % XSI, ["false", "0", ""][f["val"] % 3])
